@@ -9,7 +9,8 @@ From Flocq Require Import Core.Core.
 Require Import Blots.Num Blots.Outcome Blots.DisplayNum.
 Require Import Blots.proofs.DisplayNumGroup Blots.proofs.DisplayNumSpec Blots.proofs.DisplayNumText
                Blots.proofs.DisplayNumInt Blots.proofs.DisplayNum Blots.proofs.DisplayNumAcc
-               Blots.proofs.DisplayNumFloat Blots.proofs.DisplayNumFinite.
+               Blots.proofs.DisplayNumFloat Blots.proofs.DisplayNumFinite Blots.proofs.DisplayNumAccStd.
+From Coq Require Import Qreals.
 Import ListNotations.
 Open Scope char_scope.
 Open Scope Z_scope.
@@ -265,9 +266,12 @@ Definition accurate15 (x : num) (t : text) : Prop :=
   forall k, in_decade x k -> (Qabs (denote t - num_to_Q x) < Qpower (10 # 1) (k - 14)%Z)%Q.
 
 (* The statement of the accuracy clause for the code as it is (repaired by
-   fixes/C20-decimal-exponent.diff = /repo 60da55e), with the exact library models.  NOT PROVED (it needs the
-   rounding-error analysis of value*scale, round, /scale over all binades); decided on the
-   implementation by the exact-rational search of checks/c20.py. *)
+   fixes/C20-decimal-exponent.diff = /repo 60da55e), with the exact library models.  NOT PROVED as stated (the executable library models are
+   not proved to satisfy the oracle specifications; they are tested by the ORACLE streams).  What
+   IS proved is this statement with the library models replaced by any oracles meeting explicit
+   specifications: C20_accuracy_partial_integers / _scientific / _standard below cover every
+   finite non-zero double.  On the implementation the clause is decided by the exact-rational
+   search of checks/c20.py. *)
 Definition C20_accuracy_full : Prop :=
   forall log10, log10_sane log10 ->
   forall x t, valid_binary prec emax x = true -> is_finite x = true -> neqb x nzero = false ->
@@ -346,6 +350,69 @@ Example C20_hyp_sci_sample :
   Qle_bool (Qabs (num_to_Q m - denote_plain (tx "1.50000000000000"))) (2 # 1000000000000000) = true /\
   prec_shape 14 (fmt_prec_exec m 14) = true /\
   Qle_bool (Qabs (denote_plain (fmt_prec_exec m 14) - num_to_Q m)) (1 # 200000000000000) = true.
+Proof. vm_compute. repeat split. Qed.
+
+(* Proved part of the accuracy clause: the STANDARD range, non-integers (0.0001 <= |x| < 1e15),
+   for the code as it is (fx = true, /repo 60da55e).  Real-valued specifications of the oracles
+   (p10 k = 10^k, RV = the real a double denotes, rnd64 = round-to-nearest-even to binary64):
+     - f64::log10 is off by less than one: floor(log10 a) is the decimal exponent or one more;
+     - powi(10, j) is exact for 0 <= j <= 22 and, for -4 <= j <= -1, the correctly rounded 10^j
+       which is not below 10^j (true of the four doubles 0.1, 0.01, 0.001, 0.0001);
+     - {:.dp$} has the documented shape and prints the nearest multiple of 10^-dp (dp <= 18).
+   Then the text is within 5/8 of a unit of the 15th significant digit of x (< 1 unit).
+   Proof (proofs/DisplayNumAccStd.v, Flocq): the repaired decimal_exponent is exact; value*scale
+   errs by < 1/8, .round() by <= 1/2, so n = the 15-digit integer is within 5/8; n < 2^53 is a
+   double exactly; n/scale is within 2^-53 relative of the decimal n * 10^(K-14); its decade and
+   hence the number of decimal places are right (also in the carry case n = 10^15); the printed
+   decimal and n * 10^(K-14) lie on the same grid less than one step apart, hence are equal. *)
+Theorem C20_accuracy_partial_standard : forall log10 powi fmt_prec fmt_exp14 parse_f64,
+  (forall a K, valid a -> is_finite a = true -> (p10 K <= RV a < p10 (K + 1))%R ->
+               K <= as_i32 (nfloor (log10 a)) <= K + 1) ->
+  (forall j, 0 <= j <= 22 ->
+     valid (powi c_ten j) /\ (exists s m e, powi c_ten j = S754_finite s m e) /\
+     RV (powi c_ten j) = p10 j) ->
+  (forall j, -4 <= j <= -1 ->
+     valid (powi c_ten j) /\ (exists s m e, powi c_ten j = S754_finite s m e) /\
+     RV (powi c_ten j) = rnd64 (p10 j) /\ (p10 j <= RV (powi c_ten j))%R) ->
+  (forall x n, is_finite x = true -> 0 <= n -> prec_shape n (fmt_prec x n) = true) ->
+  (forall m dp, is_finite m = true -> 0 <= dp <= 18 ->
+     (Rabs (Q2R (denote_plain (fmt_prec m dp)) - RV m) <= / 2 * p10 (- dp))%R) ->
+  forall x K t,
+  valid x -> std_nonint_path x = true ->
+  (p10 K <= Rabs (RV x) < p10 (K + 1))%R ->
+  format_display_number log10 powi fmt_prec fmt_exp14 parse_f64 true x = Ok t ->
+  (Rabs (Q2R (denote t) - RV x) <= 5 / 8 * p10 (K - 14))%R /\
+  (Rabs (Q2R (denote t) - RV x) < p10 (K - 14))%R.
+Proof. exact display_standard_accurate'. Qed.
+Check C20_accuracy_partial_standard : forall log10 powi fmt_prec fmt_exp14 parse_f64,
+  (forall a K, valid a -> is_finite a = true -> (p10 K <= RV a < p10 (K + 1))%R ->
+               K <= as_i32 (nfloor (log10 a)) <= K + 1) ->
+  (forall j, 0 <= j <= 22 ->
+     valid (powi c_ten j) /\ (exists s m e, powi c_ten j = S754_finite s m e) /\
+     RV (powi c_ten j) = p10 j) ->
+  (forall j, -4 <= j <= -1 ->
+     valid (powi c_ten j) /\ (exists s m e, powi c_ten j = S754_finite s m e) /\
+     RV (powi c_ten j) = rnd64 (p10 j) /\ (p10 j <= RV (powi c_ten j))%R) ->
+  (forall x n, is_finite x = true -> 0 <= n -> prec_shape n (fmt_prec x n) = true) ->
+  (forall m dp, is_finite m = true -> 0 <= dp <= 18 ->
+     (Rabs (Q2R (denote_plain (fmt_prec m dp)) - RV m) <= / 2 * p10 (- dp))%R) ->
+  forall x K t,
+  valid x -> std_nonint_path x = true ->
+  (p10 K <= Rabs (RV x) < p10 (K + 1))%R ->
+  format_display_number log10 powi fmt_prec fmt_exp14 parse_f64 true x = Ok t ->
+  (Rabs (Q2R (denote t) - RV x) <= 5 / 8 * p10 (K - 14))%R /\
+  (Rabs (Q2R (denote t) - RV x) < p10 (K - 14))%R.
+Print Assumptions C20_accuracy_partial_standard.
+(* terminates the axiom block for the driver's Print-Assumptions parser *)
+Print Assumptions C20_names.
+(* the powi hypotheses hold for the executable powi model (exact rational comparison), and the
+   {:.dp$} accuracy hypothesis at a sample point (1234.5678 with 11 places) *)
+Example C20_hyp_std_sample :
+  forallb (fun j => Qeq_bool (num_to_Q (powi_exec c_ten j)) (inject_Z (10 ^ j)))
+          [0;1;2;3;4;5;6;7;8;9;10;11;12;13;14;15;16;17;18;19;20;21;22] = true /\
+  forallb (fun j => Qle_bool (Qpower (10 # 1) j) (num_to_Q (powi_exec c_ten j))) [-4;-3;-2;-1] = true /\
+  (let m := num_of_bits 0x40934a456d5cfaad in
+   Qle_bool (Qabs (denote_plain (fmt_prec_exec m 11) - num_to_Q m)) ((1 # 2) * Qpower (10 # 1) (-11)) = true).
 Proof. vm_compute. repeat split. Qed.
 
 (* REFUTED on the code before /repo commit 60da55e (fx = false), finding C20-F1 (now fixed):
